@@ -329,4 +329,969 @@ theorem symmetrical_eq_some {m r : M} (h : symmetrical m = some r) :
     intro hv
     exact hn ⟨e, he, hne, v2, hg, hv⟩
 
+/-! ## The quarter-decimal codec -/
+
+theorem natDigits_zero : natDigits 0 = [48] := by rw [natDigits]; rfl
+
+theorem digitChar_ne_zero : ∀ d, d < 10 → d ≠ 0 → digitChar d ≠ 48 := by decide
+
+/-- No leading zero, except for `0` itself. -/
+theorem natDigits_head (n : Nat) (h : n ≠ 0) : (natDigits n).head? ≠ some 48 := by
+  induction n using Nat.strongRecOn with
+  | _ n ih =>
+    rw [natDigits]
+    split
+    · rename_i hlt
+      simpa using digitChar_ne_zero n hlt h
+    · have := ih (n / 10) (by omega) (by omega)
+      have hne := natDigits_ne_nil (n / 10)
+      revert this hne
+      cases natDigits (n / 10) with
+      | nil => simp
+      | cons x xs => simp
+
+/-- The integer-part check of `parseQuarter`. -/
+def okInt (ip : Bytes) : Bool :=
+  match ip with
+  | [] => false
+  | [48] => true
+  | 48 :: _ => false
+  | _ => true
+
+/-- `parseQuarter` after sign and point have been split off. -/
+def pqParts (neg : Bool) (ip fp : Bytes) : Option Int :=
+  if !okInt ip then none else
+  match parseNat ip with
+  | none => none
+  | some n =>
+    let fq : Option Nat :=
+      if fp == [] then some 0
+      else if fp == [46, 50, 53] then some 1
+      else if fp == [46, 53] then some 2
+      else if fp == [46, 55, 53] then some 3
+      else none
+    match fq with
+    | none => none
+    | some f => let v : Int := (n * 4 + f : Nat); some (if neg then -v else v)
+
+def pqSplit (body : Bytes) : Bytes × Bytes :=
+  match splitOn 46 body with
+    | [i] => (i, ([] : Bytes))
+    | [i, f] => (i, 46 :: f)
+    | _ => ([], [0])
+
+def pqBody (neg : Bool) (body : Bytes) : Option Int :=
+  pqParts neg (pqSplit body).1 (pqSplit body).2
+
+theorem parseQuarter_neg (r : Bytes) : parseQuarter (45 :: r) = pqBody true r := rfl
+
+theorem parseQuarter_nonneg {s : Bytes} (h : s.head? ≠ some 45) :
+    parseQuarter s = pqBody false s := by
+  unfold parseQuarter
+  split
+  · rename_i heq
+    split at heq
+    · simp at h
+    · cases heq; rfl
+
+theorem okInt_natDigits (n : Nat) : okInt (natDigits n) = true := by
+  by_cases h : n = 0
+  · subst h; rw [natDigits_zero]; rfl
+  · have h1 := natDigits_head n h
+    have h2 := natDigits_ne_nil n
+    unfold okInt
+    split <;> simp_all
+
+
+/-- The fraction suffix of `quarterText`. -/
+def fracText (r : Nat) : Bytes :=
+  match r with
+  | 1 => [46, 50, 53]
+  | 2 => [46, 53]
+  | 3 => [46, 55, 53]
+  | _ => []
+
+theorem quarterText_eq (q : Int) :
+    quarterText q = (if q < 0 then [45] else []) ++ natDigits (q.natAbs / 4) ++ fracText (q.natAbs % 4) := by
+  unfold quarterText fracText
+  rfl
+
+theorem pqSplit_natDigits_frac (n r : Nat) (hr : r < 4) :
+    pqSplit (natDigits n ++ fracText r) = (natDigits n, fracText r) := by
+  have h46 : (46 : UInt8) ∉ natDigits n := not_mem_natDigits n (by decide)
+  unfold pqSplit
+  have : r = 0 ∨ r = 1 ∨ r = 2 ∨ r = 3 := by omega
+  rcases this with rfl | rfl | rfl | rfl
+  · simp only [fracText, List.append_nil, splitOn_of_not_mem h46]
+  · simp only [fracText, splitOn_append_sep h46]; rfl
+  · simp only [fracText, splitOn_append_sep h46]; rfl
+  · simp only [fracText, splitOn_append_sep h46]; rfl
+
+theorem pqParts_natDigits_frac (neg : Bool) (n r : Nat) (hr : r < 4) :
+    pqParts neg (natDigits n) (fracText r)
+      = some (if neg then -((n * 4 + r : Nat) : Int) else ((n * 4 + r : Nat) : Int)) := by
+  unfold pqParts
+  rw [okInt_natDigits, parseNat_natDigits]
+  have : r = 0 ∨ r = 1 ∨ r = 2 ∨ r = 3 := by omega
+  rcases this with rfl | rfl | rfl | rfl <;> simp [fracText]
+
+/-- The printed score text denotes exactly the score. -/
+theorem quarter_roundtrip (q : Int) : parseQuarter (quarterText q) = some q := by
+  rw [quarterText_eq]
+  have hr : q.natAbs % 4 < 4 := Nat.mod_lt _ (by decide)
+  by_cases hq : q < 0
+  · simp only [hq, if_true, List.cons_append, List.nil_append]
+    rw [parseQuarter_neg, pqBody, pqSplit_natDigits_frac _ _ hr, pqParts_natDigits_frac _ _ _ hr]
+    simp only [if_true, Option.some.injEq]
+    omega
+  · simp only [hq, if_false, List.nil_append]
+    rw [parseQuarter_nonneg, pqBody, pqSplit_natDigits_frac _ _ hr,
+      pqParts_natDigits_frac _ _ _ hr]
+    · simp only [Bool.false_eq_true, if_false, Option.some.injEq]
+      omega
+    · have hne := natDigits_ne_nil (q.natAbs / 4)
+      have h45 : (45 : UInt8) ∉ natDigits (q.natAbs / 4) := not_mem_natDigits _ (by decide)
+      revert hne h45
+      cases natDigits (q.natAbs / 4) with
+      | nil => simp
+      | cons x xs => intro _ h; simp at h ⊢; exact fun hx => h.1 hx.symm
+
+/-- Every byte of a printed score is `-`, `.` or a digit. -/
+theorem quarterText_bytes (q : Int) :
+    ∀ b ∈ quarterText q, b = 45 ∨ b = 46 ∨ isDigit b = true := by
+  intro b hb
+  rw [quarterText_eq] at hb
+  simp only [List.mem_append] at hb
+  rcases hb with (hb | hb) | hb
+  · split at hb <;> simp at hb; exact Or.inl hb
+  · exact Or.inr (Or.inr (natDigits_isDigit _ b hb))
+  · have hr : q.natAbs % 4 < 4 := Nat.mod_lt _ (by decide)
+    have : q.natAbs % 4 = 0 ∨ q.natAbs % 4 = 1 ∨ q.natAbs % 4 = 2 ∨ q.natAbs % 4 = 3 := by omega
+    rcases this with h | h | h | h <;> rw [h] at hb <;> simp [fracText] at hb
+    all_goals (rcases hb with rfl | rfl | rfl <;> simp [isDigit]) 
+
+theorem quarterText_ne_nil (q : Int) : quarterText q ≠ [] := by
+  rw [quarterText_eq]
+  have := natDigits_ne_nil (q.natAbs / 4)
+  simp [this]
+
+/-- A printed score contains no whitespace, no `,`, no `}`, no `#`. -/
+theorem quarterText_clean (q : Int) :
+    ∀ b ∈ quarterText q, isSpace b = false ∧ b ≠ 44 ∧ b ≠ 125 ∧ b ≠ 35 := by
+  intro b hb
+  rcases quarterText_bytes q b hb with rfl | rfl | h
+  · decide
+  · decide
+  · rw [isDigit_iff] at h
+    have h1 : ∀ c : UInt8, b = c → b.toNat = c.toNat := fun c hc => by rw [hc]
+    refine ⟨?_, ?_, ?_, ?_⟩
+    · simp only [isSpace, Bool.or_eq_false_iff, beq_eq_false_iff_ne, ne_eq]
+      refine ⟨⟨⟨⟨?_, ?_⟩, ?_⟩, ?_⟩, ?_⟩ <;> intro hc <;> have := h1 _ hc <;> simp at this <;> omega
+    all_goals (intro hc; have := h1 _ hc; simp at this; omega)
+
+/-! ## `fields` -/
+
+theorem fields_nil : fields [] = [] := rfl
+
+theorem fields_cons_space {b : UInt8} (h : isSpace b = true) (rest : Bytes) :
+    fields (b :: rest) = fields rest := by
+  cases rest <;> simp [fields, h]
+
+theorem fields_spaces_append {ws : Bytes} (h : ∀ b ∈ ws, isSpace b = true) (x : Bytes) :
+    fields (ws ++ x) = fields x := by
+  induction ws with
+  | nil => rfl
+  | cons b ws ih =>
+    rw [List.cons_append, fields_cons_space (h b (by simp)), ih (fun c hc => h c (by simp [hc]))]
+
+theorem fields_single {b : UInt8} (h : isSpace b = false) : fields [b] = [[b]] := by
+  rw [fields]; simp [h]
+
+theorem fields_tok_space {t : Bytes} (hne : t ≠ []) (h : ∀ b ∈ t, isSpace b = false)
+    {s : UInt8} (hs : isSpace s = true) (x : Bytes) :
+    fields (t ++ s :: x) = t :: fields x := by
+  induction t with
+  | nil => exact absurd rfl hne
+  | cons b r ih =>
+    have hb : isSpace b = false := h b (by simp)
+    cases r with
+    | nil =>
+      rw [List.singleton_append, fields]
+      simp [hb, hs, fields_cons_space hs]
+    | cons c r =>
+      have hc : isSpace c = false := h c (by simp)
+      have := ih (by simp) (fun d hd => h d (by simp [hd]))
+      rw [List.cons_append, List.cons_append, fields]
+      simp only [hb, Bool.false_eq_true, if_false, hc]
+      rw [List.cons_append] at this
+      rw [this]
+
+theorem fields_tok {t : Bytes} (hne : t ≠ []) (h : ∀ b ∈ t, isSpace b = false) :
+    fields t = [t] := by
+  induction t with
+  | nil => exact absurd rfl hne
+  | cons b r ih =>
+    have hb : isSpace b = false := h b (by simp)
+    cases r with
+    | nil => exact fields_single hb
+    | cons c r =>
+      have hc : isSpace c = false := h c (by simp)
+      have := ih (by simp) (fun d hd => h d (by simp [hd]))
+      rw [fields]
+      simp only [hb, Bool.false_eq_true, if_false, hc]
+      rw [this]
+
+theorem fields_append_space (l : Bytes) {s : UInt8} (hs : isSpace s = true) :
+    fields (l ++ [s]) = fields l := by
+  induction l with
+  | nil => simp [fields_cons_space hs, fields_nil]
+  | cons b r ih =>
+    by_cases hb : isSpace b = true
+    · rw [List.cons_append, fields_cons_space hb, fields_cons_space hb, ih]
+    · have hb : isSpace b = false := by simpa using hb
+      cases r with
+      | nil =>
+        rw [List.singleton_append, fields_single hb, fields]
+        simp [hb, hs, fields_cons_space hs, fields_nil]
+      | cons c r =>
+        rw [List.cons_append, List.cons_append, fields, fields]
+        simp only [hb, Bool.false_eq_true, if_false]
+        rw [List.cons_append] at ih
+        rw [ih]
+
+theorem fields_append_spaces (l : Bytes) {ws : Bytes} (h : ∀ b ∈ ws, isSpace b = true) :
+    fields (l ++ ws) = fields l := by
+  induction ws generalizing l with
+  | nil => simp
+  | cons s ws ih =>
+    have : l ++ s :: ws = (l ++ [s]) ++ ws := by simp
+    rw [this, ih _ (fun c hc => h c (by simp [hc])), fields_append_space l (h s (by simp))]
+
+/-- A token: non-empty and free of whitespace. -/
+def IsTok (t : Bytes) : Prop := t ≠ [] ∧ ∀ b ∈ t, isSpace b = false
+
+/-- A separator: a non-empty run of whitespace. -/
+def IsSep (g : Bytes) : Prop := g ≠ [] ∧ ∀ b ∈ g, isSpace b = true
+
+theorem fields_tok_sep {t g : Bytes} (ht : IsTok t) (hg : IsSep g) (x : Bytes) :
+    fields (t ++ g ++ x) = t :: fields x := by
+  obtain ⟨hne, hsp⟩ := hg
+  cases g with
+  | nil => exact absurd rfl hne
+  | cons s g =>
+    rw [List.append_assoc, List.cons_append, fields_tok_space ht.1 ht.2 (hsp s (by simp)),
+      fields_spaces_append (fun c hc => hsp c (by simp [hc]))]
+
+/-! ## The token-level view of `readRows` -/
+
+/-- What `readRows` sees of a scanned line: nothing (empty or comment), or its fields. -/
+def lineToks (s : Bytes) : Option (List Bytes) :=
+  match s with
+  | [] => none
+  | 35 :: _ => none
+  | _ => some (fields s)
+
+/-- `readRows` on the token lists of the non-skipped lines. -/
+def readToks : Option (List UInt8) → List (List Bytes) → M → Option M
+  | _, [], m => some m
+  | none, ts :: rest, m =>
+    match ts.mapM singleChar with
+    | none => none
+    | some cs => readToks (if cs.isEmpty then none else some cs) rest m
+  | some cs, ts :: rest, m =>
+    match ts with
+    | [] => none
+    | lab :: vals =>
+      if vals.length != cs.length then none
+      else match singleChar lab, vals.mapM parseQuarter with
+        | some c, some vs => readToks (some cs) rest (rowInsert c cs vs m)
+        | _, _ => none
+
+theorem lineToks_nil : lineToks [] = none := rfl
+theorem lineToks_comment (r : Bytes) : lineToks (35 :: r) = none := rfl
+
+theorem lineToks_of {s : Bytes} (h1 : s ≠ []) (h2 : s.head? ≠ some 35) :
+    lineToks s = some (fields s) := by
+  unfold lineToks
+  split
+  · exact absurd rfl h1
+  · simp at h2
+  · rfl
+
+theorem lineToks_eq_none_iff (s : Bytes) : lineToks s = none ↔ s = [] ∨ s.head? = some 35 := by
+  unfold lineToks
+  split
+  · simp
+  · simp
+  · rename_i h1 h2
+    simp only [reduceCtorEq, false_iff, not_or]
+    refine ⟨h1, ?_⟩
+    intro h
+    cases s with
+    | nil => simp at h
+    | cons b r => simp at h; subst h; exact h2 r rfl
+
+theorem readRows_eq_readToks (chars : Option (List UInt8)) (ls : List Bytes) (m : M) :
+    readRows chars ls m = readToks chars (ls.filterMap lineToks) m := by
+  induction ls generalizing chars m with
+  | nil => cases chars <;> rfl
+  | cons row rows ih =>
+    rw [readRows.eq_def]
+    simp only
+    split
+    · rw [List.filterMap_cons, lineToks_nil]; exact ih _ _
+    · rw [List.filterMap_cons, lineToks_comment]; exact ih _ _
+    · rename_i h1 h2
+      have hl : lineToks row = some (fields row) := by
+        apply lineToks_of
+        · exact h1
+        · intro h; cases row with
+          | nil => simp at h
+          | cons b r => simp at h; subst h; exact h2 r rfl
+      rw [List.filterMap_cons, hl]
+      cases chars with
+      | none =>
+        simp only [readToks]
+        cases List.mapM singleChar (fields row) with
+        | none => rfl
+        | some cs => exact ih _ _
+      | some cs =>
+        simp only [readToks]
+        cases fields row with
+        | nil => rfl
+        | cons lab vals =>
+          simp only
+          by_cases hlen : (vals.length != cs.length) = true
+          · simp only [hlen, if_true]
+          · simp only [hlen]
+            cases singleChar lab <;> cases List.mapM parseQuarter vals <;>
+              first | rfl | exact ih _ _
+
+/-! ## `dropCR` and `lineToks` -/
+
+theorem dropCR_single (a : UInt8) : dropCR [a] = if a = 13 then [] else [a] := by
+  unfold dropCR
+  by_cases h : a = 13
+  · subst h; rfl
+  · simp only [List.getLast?_singleton, h, if_false]
+    split
+    · rename_i h'; simp at h'; exact absurd h' h
+    · rfl
+
+theorem dropCR_cons_cons (a b : UInt8) (r : Bytes) :
+    dropCR (a :: b :: r) = a :: dropCR (b :: r) := by
+  unfold dropCR
+  rw [List.getLast?_cons_cons]
+  split <;> simp
+
+theorem dropCR_eq_or (l : Bytes) : dropCR l = l ∨ ∃ l', l = l' ++ [13] ∧ dropCR l = l' := by
+  unfold dropCR
+  split
+  · rename_i h
+    right
+    refine ⟨l.dropLast, ?_, rfl⟩
+    have hne : l ≠ [] := by rintro rfl; simp at h
+    have := List.dropLast_concat_getLast hne
+    rw [List.getLast?_eq_some_getLast hne] at h
+    simp only [Option.some.injEq] at h
+    rw [h] at this
+    exact this.symm
+  · exact Or.inl rfl
+
+/-- Stripping the CR does not change how a line with at least one field is read. -/
+theorem lineToks_dropCR {b : Bytes} (h : fields b ≠ []) : lineToks (dropCR b) = lineToks b := by
+  rcases dropCR_eq_or b with h' | ⟨l', hb, h'⟩
+  · rw [h']
+  · rw [h']
+    have hf : fields l' = fields b := by
+      rw [hb, fields_append_space l' (by decide)]
+    cases l' with
+    | nil => rw [← hf] at h; exact absurd rfl h
+    | cons x r =>
+      rw [hb]
+      by_cases hx : x = 35
+      · subst hx; rfl
+      · rw [lineToks_of (by simp) (by simpa using hx), lineToks_of (by simp) (by simpa using hx), hf,
+          hb]
+
+/-- A comment or empty line (as it stands before the line terminator). -/
+def IsJunk (j : Bytes) : Prop := (10 : UInt8) ∉ j ∧ (j = [] ∨ j.head? = some 35)
+
+instance (j : Bytes) : Decidable (IsJunk j) := by unfold IsJunk; infer_instance
+
+theorem lineToks_junk {j : Bytes} (h : IsJunk j) : lineToks j = none :=
+  (lineToks_eq_none_iff j).2 h.2
+
+theorem lineToks_dropCR_junk {j : Bytes} (h : IsJunk j) : lineToks (dropCR j) = none := by
+  rcases h.2 with rfl | h2
+  · rfl
+  · cases j with
+    | nil => rfl
+    | cons a r =>
+      simp at h2; subst h2
+      cases r with
+      | nil => rfl
+      | cons b r => rw [dropCR_cons_cons]; rfl
+
+/-! ## Physical lines and their terminators -/
+
+/-- Line terminator. -/
+inductive Eol where
+  | lf
+  | crlf
+  deriving DecidableEq, Repr
+
+def Eol.bytes : Eol → Bytes
+  | .lf => [10]
+  | .crlf => [13, 10]
+
+/-- A physical line: its bytes and its terminator. -/
+abbrev Phys := Bytes × Eol
+
+/-- The file made of the given physical lines; with `fe = false` the last line lacks its
+terminator. -/
+def renderPhys (fe : Bool) : List Phys → Bytes
+  | [] => []
+  | [p] => p.1 ++ (if fe then p.2.bytes else [])
+  | p :: q :: rest => p.1 ++ p.2.bytes ++ renderPhys fe (q :: rest)
+
+/-- LF-free, and CR stripping does not change how the line is read. -/
+def GoodBody (b : Bytes) : Prop := (10 : UInt8) ∉ b ∧ lineToks (dropCR b) = lineToks b
+
+theorem GoodBody.of_junk {j : Bytes} (h : IsJunk j) : GoodBody j :=
+  ⟨h.1, by rw [lineToks_dropCR_junk h, lineToks_junk h]⟩
+
+theorem filterMap_scan_line (b : Bytes) (e : Eol) (hb : GoodBody b) (rest : Bytes) :
+    (scanLines (b ++ e.bytes ++ rest)).filterMap lineToks
+      = (lineToks b).toList ++ (scanLines rest).filterMap lineToks := by
+  cases e with
+  | lf =>
+    simp only [Eol.bytes, List.append_assoc, List.singleton_append]
+    rw [scanLines_append_LF' hb.1, List.filterMap_cons, hb.2]
+    cases lineToks b <;> rfl
+  | crlf =>
+    simp only [Eol.bytes, List.append_assoc, List.cons_append, List.nil_append]
+    rw [scanLines_append_CRLF hb.1, List.filterMap_cons]
+    cases lineToks b <;> rfl
+
+theorem filterMap_scan_last (b : Bytes) (hb : GoodBody b) :
+    (scanLines b).filterMap lineToks = (lineToks b).toList := by
+  by_cases hne : b = []
+  · subst hne; rfl
+  · unfold scanLines
+    rw [rawLines_of_not_mem hne hb.1]
+    simp only [List.map_cons, List.map_nil, List.filterMap_cons, List.filterMap_nil, hb.2]
+    cases lineToks b <;> rfl
+
+/-- Scanning a file recovers, line by line, what `readRows` sees. -/
+theorem filterMap_scan_renderPhys (fe : Bool) (ps : List Phys) (h : ∀ p ∈ ps, GoodBody p.1) :
+    (scanLines (renderPhys fe ps)).filterMap lineToks = ps.filterMap (fun p => lineToks p.1) := by
+  induction ps with
+  | nil => rfl
+  | cons p ps ih =>
+    cases ps with
+    | nil =>
+      simp only [renderPhys, List.filterMap_cons, List.filterMap_nil]
+      cases fe with
+      | true =>
+        have := filterMap_scan_line p.1 p.2 (h p (by simp)) []
+        simp only [List.append_nil] at this
+        simp only [if_true, this, scanLines_nil, List.filterMap_nil, List.append_nil]
+        cases lineToks p.1 <;> rfl
+      | false =>
+        simp only [Bool.false_eq_true, if_false, List.append_nil]
+        rw [filterMap_scan_last _ (h p (by simp))]
+        cases lineToks p.1 <;> rfl
+    | cons q rest =>
+      rw [renderPhys, filterMap_scan_line _ _ (h p (by simp)),
+        ih (fun r hr => h r (List.mem_cons_of_mem _ hr)), List.filterMap_cons (a := p)]
+      cases lineToks p.1 <;> rfl
+
+/-! ## Line layouts -/
+
+/-- Whitespace other than LF: TAB, FF, CR, SP. -/
+def isGapw (b : UInt8) : Bool := b == 9 || b == 12 || b == 13 || b == 32
+
+theorem isGapw_space {b : UInt8} (h : isGapw b = true) : isSpace b = true := by
+  simp only [isGapw, Bool.or_eq_true, beq_iff_eq] at h
+  rcases h with ((rfl | rfl) | rfl) | rfl <;> decide
+
+theorem isGapw_ne_LF {b : UInt8} (h : isGapw b = true) : b ≠ 10 := by
+  rintro rfl; simp [isGapw] at h
+
+theorem isGapw_ne_hash {b : UInt8} (h : isGapw b = true) : b ≠ 35 := by
+  rintro rfl; simp [isGapw] at h
+
+/-- A gap between two tokens: a non-empty run of non-LF whitespace. -/
+def IsGap (g : Bytes) : Prop := g ≠ [] ∧ ∀ b ∈ g, isGapw b = true
+
+instance (t : Bytes) : Decidable (IsTok t) := by unfold IsTok; infer_instance
+instance (g : Bytes) : Decidable (IsGap g) := by unfold IsGap; infer_instance
+
+theorem IsGap.isSep {g : Bytes} (h : IsGap g) : IsSep g :=
+  ⟨h.1, fun b hb => isGapw_space (h.2 b hb)⟩
+
+theorem IsTok.no_LF {t : Bytes} (h : IsTok t) : (10 : UInt8) ∉ t := by
+  intro hm; have := h.2 10 hm; simp [isSpace] at this
+
+theorem gapw_no_LF {g : Bytes} (h : ∀ b ∈ g, isGapw b = true) : (10 : UInt8) ∉ g :=
+  fun hm => isGapw_ne_LF (h 10 hm) rfl
+
+theorem isGap_single_space : IsGap [32] := by decide
+
+/-- Tokens separated by the given gaps (a single space where the gap list runs out). -/
+def renderToks : List Bytes → List Bytes → Bytes
+  | [], _ => []
+  | [t], _ => t
+  | t :: u :: ts, gs => t ++ gs.headD [32] ++ renderToks (u :: ts) gs.tail
+
+theorem isGap_headD {gs : List Bytes} (hg : ∀ g ∈ gs, IsGap g) : IsGap (gs.headD [32]) := by
+  cases gs with
+  | nil => exact isGap_single_space
+  | cons g gs => exact hg g (by simp)
+
+theorem fields_renderToks (toks gs : List Bytes) (ht : ∀ t ∈ toks, IsTok t)
+    (hg : ∀ g ∈ gs, IsGap g) : fields (renderToks toks gs) = toks := by
+  induction toks generalizing gs with
+  | nil => rfl
+  | cons t ts ih =>
+    cases ts with
+    | nil => exact fields_tok (ht t (by simp)).1 (ht t (by simp)).2
+    | cons u ts =>
+      rw [renderToks, fields_tok_sep (ht t (by simp)) (isGap_headD hg).isSep,
+        ih _ (fun x hx => ht x (List.mem_cons_of_mem _ hx))
+          (fun g hg' => hg g (List.mem_of_mem_tail hg'))]
+
+theorem renderToks_no_LF (toks gs : List Bytes) (ht : ∀ t ∈ toks, IsTok t)
+    (hg : ∀ g ∈ gs, IsGap g) : (10 : UInt8) ∉ renderToks toks gs := by
+  induction toks generalizing gs with
+  | nil => simp [renderToks]
+  | cons t ts ih =>
+    cases ts with
+    | nil => exact (ht t (by simp)).no_LF
+    | cons u ts =>
+      rw [renderToks]
+      simp only [List.mem_append, not_or]
+      exact ⟨⟨(ht t (by simp)).no_LF, gapw_no_LF (isGap_headD hg).2⟩,
+        ih _ (fun x hx => ht x (List.mem_cons_of_mem _ hx))
+          (fun g hg' => hg g (List.mem_of_mem_tail hg'))⟩
+
+theorem renderToks_head (t : Bytes) (ts gs : List Bytes) (ht : t ≠ []) :
+    (renderToks (t :: ts) gs).head? = t.head? := by
+  cases t with
+  | nil => exact absurd rfl ht
+  | cons a t => cases ts <;> rfl
+
+/-- The tokens of one non-skipped line as a reader must see them: at least one token, each
+non-empty and whitespace-free, and the line does not begin with `#`. -/
+def ProperToks (toks : List Bytes) : Prop :=
+  toks ≠ [] ∧ (∀ t ∈ toks, IsTok t) ∧ toks.head?.bind List.head? ≠ some 35
+
+instance (toks : List Bytes) : Decidable (ProperToks toks) := by unfold ProperToks; infer_instance
+
+/-- Layout of one token line: comment/empty lines before it, leading whitespace, the gaps
+between tokens, trailing whitespace, terminator. -/
+structure LineLayout where
+  before : List Phys := []
+  lead : Bytes := []
+  gaps : List Bytes := []
+  trail : Bytes := []
+  eol : Eol := .lf
+
+def LineLayout.OK (l : LineLayout) : Prop :=
+  (∀ j ∈ l.before, IsJunk j.1) ∧ (∀ b ∈ l.lead, isGapw b = true) ∧
+  (∀ g ∈ l.gaps, IsGap g) ∧ (∀ b ∈ l.trail, isGapw b = true)
+
+instance (l : LineLayout) : Decidable l.OK := by unfold LineLayout.OK; infer_instance
+
+theorem LineLayout.default_OK : ({} : LineLayout).OK := by decide
+
+def LineLayout.body (l : LineLayout) (toks : List Bytes) : Bytes :=
+  l.lead ++ renderToks toks l.gaps ++ l.trail
+
+theorem LineLayout.fields_body {l : LineLayout} (hl : l.OK) {toks : List Bytes}
+    (ht : ∀ t ∈ toks, IsTok t) : fields (l.body toks) = toks := by
+  unfold LineLayout.body
+  rw [fields_append_spaces _ (fun b hb => isGapw_space (hl.2.2.2 b hb)),
+    fields_spaces_append (fun b hb => isGapw_space (hl.2.1 b hb)),
+    fields_renderToks _ _ ht hl.2.2.1]
+
+theorem LineLayout.lineToks_body {l : LineLayout} (hl : l.OK) {toks : List Bytes}
+    (ht : ProperToks toks) : lineToks (l.body toks) = some toks := by
+  have hf := LineLayout.fields_body hl ht.2.1
+  have hne : l.body toks ≠ [] := by
+    intro h; rw [h] at hf; exact ht.1 hf.symm
+  rw [lineToks_of hne, hf]
+  unfold LineLayout.body
+  rw [List.append_assoc]
+  cases hlead : l.lead with
+  | cons x r =>
+    have := isGapw_ne_hash (hl.2.1 x (by simp [hlead]))
+    simpa using this
+  | nil =>
+    obtain ⟨h1, h2, h3⟩ := ht
+    cases toks with
+    | nil => exact absurd rfl h1
+    | cons t ts =>
+      have htne : t ≠ [] := (h2 t (by simp)).1
+      have hr := renderToks_head t ts l.gaps htne
+      have hrne : renderToks (t :: ts) l.gaps ≠ [] := by
+        intro h; rw [h] at hr
+        cases t with
+        | nil => exact htne rfl
+        | cons a t => simp at hr
+      rw [List.nil_append, List.head?_append, hr]
+      simp only [List.head?_cons, Option.bind_some] at h3
+      cases t with
+      | nil => exact absurd rfl htne
+      | cons a t => simpa using h3
+
+theorem LineLayout.body_good {l : LineLayout} (hl : l.OK) {toks : List Bytes}
+    (ht : ProperToks toks) : GoodBody (l.body toks) := by
+  refine ⟨?_, lineToks_dropCR ?_⟩
+  · unfold LineLayout.body
+    simp only [List.mem_append, not_or]
+    exact ⟨⟨gapw_no_LF hl.2.1, renderToks_no_LF _ _ ht.2.1 hl.2.2.1⟩, gapw_no_LF hl.2.2.2⟩
+  · rw [LineLayout.fields_body hl ht.2.1]; exact ht.1
+
+/-! ## Document layouts -/
+
+/-- Layout of a whole file: one `LineLayout` per token line (the default one where the list
+runs out), comment/empty lines at the end, and whether the last line is terminated. -/
+structure Layout where
+  lines : List LineLayout := []
+  after : List Phys := []
+  finalEol : Bool := true
+
+def Layout.OK (L : Layout) : Prop := (∀ l ∈ L.lines, l.OK) ∧ ∀ j ∈ L.after, IsJunk j.1
+
+instance (L : Layout) : Decidable L.OK := by unfold Layout.OK; infer_instance
+
+/-- The physical lines of the token lines `doc` under the line layouts `ls`. -/
+def docPhys : List LineLayout → List (List Bytes) → List Phys
+  | _, [] => []
+  | ls, toks :: rest =>
+    (ls.headD {}).before ++ ((ls.headD {}).body toks, (ls.headD {}).eol) :: docPhys ls.tail rest
+
+/-- The file with token lines `doc` laid out according to `L`. -/
+def renderDoc (L : Layout) (doc : List (List Bytes)) : Bytes :=
+  renderPhys L.finalEol (docPhys L.lines doc ++ L.after)
+
+theorem headD_OK {ls : List LineLayout} (h : ∀ l ∈ ls, l.OK) : (ls.headD {}).OK := by
+  cases ls with
+  | nil => exact LineLayout.default_OK
+  | cons l ls => exact h l (by simp)
+
+theorem filterMap_junk (js : List Phys) (h : ∀ j ∈ js, IsJunk j.1) :
+    js.filterMap (fun p => lineToks p.1) = [] := by
+  rw [List.filterMap_eq_nil_iff]
+  exact fun j hj => lineToks_junk (h j hj)
+
+theorem docPhys_good (ls : List LineLayout) (doc : List (List Bytes))
+    (hl : ∀ l ∈ ls, l.OK) (hd : ∀ toks ∈ doc, ProperToks toks) :
+    ∀ p ∈ docPhys ls doc, GoodBody p.1 := by
+  induction doc generalizing ls with
+  | nil => simp [docPhys]
+  | cons toks rest ih =>
+    intro p hp
+    have h0 := headD_OK hl
+    simp only [docPhys, List.mem_append, List.mem_cons] at hp
+    rcases hp with hp | rfl | hp
+    · exact GoodBody.of_junk (h0.1 p hp)
+    · exact LineLayout.body_good h0 (hd toks (by simp))
+    · exact ih ls.tail (fun l hl' => hl l (List.mem_of_mem_tail hl'))
+        (fun t ht => hd t (List.mem_cons_of_mem _ ht)) p hp
+
+theorem filterMap_docPhys (ls : List LineLayout) (doc : List (List Bytes))
+    (hl : ∀ l ∈ ls, l.OK) (hd : ∀ toks ∈ doc, ProperToks toks) :
+    (docPhys ls doc).filterMap (fun p => lineToks p.1) = doc := by
+  induction doc generalizing ls with
+  | nil => rfl
+  | cons toks rest ih =>
+    have h0 := headD_OK hl
+    rw [docPhys, List.filterMap_append, filterMap_junk _ h0.1, List.nil_append,
+      List.filterMap_cons]
+    simp only [LineLayout.lineToks_body h0 (hd toks (by simp))]
+    rw [ih ls.tail (fun l hl' => hl l (List.mem_of_mem_tail hl'))
+        (fun t ht => hd t (List.mem_cons_of_mem _ ht))]
+
+/-- Layout independence: whatever the (well-formed) layout, the scan loop sees exactly the
+token lines. -/
+theorem filterMap_scan_renderDoc (L : Layout) (hL : L.OK) (doc : List (List Bytes))
+    (hd : ∀ toks ∈ doc, ProperToks toks) :
+    (scanLines (renderDoc L doc)).filterMap lineToks = doc := by
+  unfold renderDoc
+  rw [filterMap_scan_renderPhys, List.filterMap_append, filterMap_docPhys _ _ hL.1 hd,
+    filterMap_junk _ hL.2, List.append_nil]
+  intro p hp
+  rcases List.mem_append.1 hp with hp | hp
+  · exact docPhys_good _ _ hL.1 hd p hp
+  · exact GoodBody.of_junk (hL.2 p hp)
+
+theorem readNCBI_renderDoc (L : Layout) (hL : L.OK) (doc : List (List Bytes))
+    (hd : ∀ toks ∈ doc, ProperToks toks) :
+    readNCBI (renderDoc L doc) = readToks none doc [] := by
+  rw [readNCBI, readRows_eq_readToks, filterMap_scan_renderDoc L hL doc hd]
+
+/-! ## Tables as token lines -/
+
+/-- In the file, `*` stands for the gap symbol 255. -/
+def labelByte (b : UInt8) : UInt8 := if b = 42 then 255 else b
+
+/-- A byte usable as a row/column label in the file. -/
+def ValidLabel (b : UInt8) : Prop := isSpace b = false ∧ b ≠ 35 ∧ b ≠ 255
+
+instance (b : UInt8) : Decidable (ValidLabel b) := by unfold ValidLabel; infer_instance
+
+def hdrToks (cols : List UInt8) : List Bytes := cols.map fun c => [c]
+
+def rowToks (r : UInt8 × List Int) : List Bytes := [r.1] :: r.2.map quarterText
+
+theorem labelByte_inj {a b : UInt8} (ha : a ≠ 255) (hb : b ≠ 255)
+    (h : labelByte a = labelByte b) : a = b := by
+  unfold labelByte at h
+  split at h <;> split at h <;> simp_all
+
+theorem singleChar_label (b : UInt8) : singleChar [b] = some (labelByte b) := by
+  unfold singleChar labelByte
+  split
+  · rename_i h; simp at h; simp [h]
+  · rename_i c h1 h; simp at h; subst h
+    have : ¬ b = 42 := fun hb => h1 (by rw [hb])
+    simp [this]
+  · rename_i h1 h2; exact absurd rfl (h2 b)
+
+/-- A token of any length other than one is not a label. -/
+theorem singleChar_long {t : Bytes} (h : t.length ≠ 1) : singleChar t = none := by
+  unfold singleChar
+  split
+  · simp at h
+  · simp at h
+  · rfl
+
+theorem mapM_map_some {α β γ : Type} {f : α → Option β} {g : γ → α} {h : γ → β}
+    (hfg : ∀ x, f (g x) = some (h x)) (l : List γ) : (l.map g).mapM f = some (l.map h) := by
+  induction l with
+  | nil => rfl
+  | cons x l ih => simp [List.mapM_cons, hfg, ih]
+
+theorem mapM_eq_none_of_mem {α β : Type} {f : α → Option β} {l : List α} {x : α}
+    (hx : x ∈ l) (hf : f x = none) : l.mapM f = none := by
+  induction l with
+  | nil => simp at hx
+  | cons y l ih =>
+    rw [List.mapM_cons]
+    rcases List.mem_cons.1 hx with rfl | hx
+    · simp [hf]
+    · cases f y <;> simp [ih hx]
+
+theorem isTok_label {b : UInt8} (h : ValidLabel b) : IsTok [b] :=
+  ⟨by simp, by simpa using h.1⟩
+
+theorem isTok_quarterText (q : Int) : IsTok (quarterText q) :=
+  ⟨quarterText_ne_nil q, fun b hb => (quarterText_clean q b hb).1⟩
+
+theorem properToks_hdr {cols : List UInt8} (hne : cols ≠ []) (h : ∀ c ∈ cols, ValidLabel c) :
+    ProperToks (hdrToks cols) := by
+  refine ⟨by simpa [hdrToks] using hne, ?_, ?_⟩
+  · intro t ht
+    obtain ⟨c, hc, rfl⟩ := List.mem_map.1 ht
+    exact isTok_label (h c hc)
+  · cases cols with
+    | nil => exact absurd rfl hne
+    | cons c cs =>
+      have := (h c (by simp)).2.1
+      simpa [hdrToks] using this
+
+theorem properToks_row {r : UInt8 × List Int} (h : ValidLabel r.1) : ProperToks (rowToks r) := by
+  refine ⟨by simp [rowToks], ?_, ?_⟩
+  · intro t ht
+    rcases List.mem_cons.1 ht with rfl | ht
+    · exact isTok_label h
+    · obtain ⟨q, _, rfl⟩ := List.mem_map.1 ht
+      exact isTok_quarterText q
+  · simpa [rowToks] using h.2.1
+
+theorem readToks_header {cols : List UInt8} (hne : cols ≠ []) (rest : List (List Bytes)) (m : M) :
+    readToks none (hdrToks cols :: rest) m = readToks (some (cols.map labelByte)) rest m := by
+  rw [readToks, hdrToks, mapM_map_some (h := labelByte) (fun c => singleChar_label c)]
+  simp [hne]
+
+theorem readToks_row (cs : List UInt8) (r : UInt8 × List Int) (h : r.2.length = cs.length)
+    (rest : List (List Bytes)) (m : M) :
+    readToks (some cs) (rowToks r :: rest) m
+      = readToks (some cs) rest (rowInsert (labelByte r.1) cs r.2 m) := by
+  rw [rowToks, readToks]
+  simp only [List.length_map, h, bne_self_eq_false, Bool.false_eq_true, if_false,
+    singleChar_label, mapM_map_some (h := id) (fun q => quarter_roundtrip q), List.map_id]
+
+theorem readToks_rows (cs : List UInt8) (rows : List (UInt8 × List Int))
+    (h : ∀ r ∈ rows, r.2.length = cs.length) (rest : List (List Bytes)) (m : M) :
+    readToks (some cs) (rows.map rowToks ++ rest) m
+      = readToks (some cs) rest
+          (rows.foldl (fun m r => rowInsert (labelByte r.1) cs r.2 m) m) := by
+  induction rows generalizing m with
+  | nil => rfl
+  | cons r rows ih =>
+    rw [List.map_cons, List.cons_append, readToks_row cs r (h r (by simp)),
+      ih (fun r' hr' => h r' (List.mem_cons_of_mem _ hr')), List.foldl_cons]
+
+/-- A data row the reader must reject, for `n` columns: wrong number of tokens, a label of
+length other than one, or a score token that is not a number. -/
+def BadRow (n : Nat) (bad : List Bytes) : Prop :=
+  bad.length ≠ n + 1 ∨ (∃ t, bad.head? = some t ∧ t.length ≠ 1) ∨
+    ∃ t ∈ bad.tail, parseQuarter t = none
+
+theorem readToks_bad_row (cs : List UInt8) {bad : List Bytes} (hb : BadRow cs.length bad)
+    (rest : List (List Bytes)) (m : M) : readToks (some cs) (bad :: rest) m = none := by
+  cases bad with
+  | nil => rfl
+  | cons lab vals =>
+    rw [readToks]
+    by_cases hlen : vals.length = cs.length
+    · simp only [hlen, bne_self_eq_false, Bool.false_eq_true, if_false]
+      rcases hb with hb | ⟨t, ht, hl⟩ | ⟨t, ht, hp⟩
+      · simp [hlen] at hb
+      · simp only [List.head?_cons, Option.some.injEq] at ht; subst ht
+        rw [singleChar_long hl]
+      · rw [List.tail_cons] at ht
+        rw [mapM_eq_none_of_mem ht hp]
+        cases singleChar lab <;> rfl
+    · have : (vals.length != cs.length) = true := by simpa using hlen
+      simp only [this, if_true]
+
+theorem readToks_bad_header {hdr : List Bytes} (h : ∃ t ∈ hdr, t.length ≠ 1)
+    (rest : List (List Bytes)) (m : M) : readToks none (hdr :: rest) m = none := by
+  obtain ⟨t, ht, hl⟩ := h
+  rw [readToks, mapM_eq_none_of_mem ht (singleChar_long hl)]
+
+/-! ## The matrix of a table -/
+
+/-- The entries of one table row, in column order. -/
+def rowEntries (cols : List UInt8) (r : UInt8 × List Int) : M :=
+  (cols.zip r.2).map fun cv => ((labelByte r.1, labelByte cv.1), cv.2)
+
+/-- All entries of a table, in file order. -/
+def tableEntries (cols : List UInt8) (rows : List (UInt8 × List Int)) : M :=
+  rows.flatMap (rowEntries cols)
+
+theorem rowInsert_eq (c : UInt8) (cols : List UInt8) (vs : List Int) (m : M) :
+    rowInsert (labelByte c) (cols.map labelByte) vs m
+      = (rowEntries cols (c, vs)).foldl (fun acc e => insert e.1 e.2 acc) m := by
+  induction cols generalizing vs m with
+  | nil => simp [rowInsert, rowEntries]
+  | cons ch chs ih =>
+    cases vs with
+    | nil => simp [rowInsert, rowEntries]
+    | cons v vs =>
+      rw [List.map_cons, rowInsert, ih]
+      simp [rowEntries]
+
+theorem rows_foldl_eq (cols : List UInt8) (rows : List (UInt8 × List Int)) (m : M) :
+    rows.foldl (fun m r => rowInsert (labelByte r.1) (cols.map labelByte) r.2 m) m
+      = (tableEntries cols rows).foldl (fun acc e => insert e.1 e.2 acc) m := by
+  unfold tableEntries
+  rw [List.foldl_flatMap]
+  congr 1
+  funext m r
+  exact rowInsert_eq r.1 cols r.2 m
+
+theorem mem_rowEntries_keys {cols : List UInt8} {r : UInt8 × List Int} {k : Key}
+    (h : k ∈ (rowEntries cols r).map (·.1)) : k.1 = labelByte r.1 ∧ k.2 ∈ cols.map labelByte := by
+  simp only [rowEntries, List.map_map, List.mem_map, Function.comp] at h
+  obtain ⟨cv, hcv, rfl⟩ := h
+  exact ⟨rfl, List.mem_map.2 ⟨cv.1, (List.of_mem_zip hcv).1, rfl⟩⟩
+
+theorem rowEntries_keyUnique (cols : List UInt8) (r : UInt8 × List Int)
+    (hc : (cols.map labelByte).Nodup) : KeyUnique (rowEntries cols r) := by
+  obtain ⟨c, vs⟩ := r
+  induction cols generalizing vs with
+  | nil => simp [rowEntries, KeyUnique]
+  | cons ch chs ih =>
+    cases vs with
+    | nil => simp [rowEntries, KeyUnique]
+    | cons v vs =>
+      simp only [List.map_cons, List.nodup_cons] at hc
+      have h1 := ih hc.2 vs
+      unfold KeyUnique at h1 ⊢
+      have : rowEntries (ch :: chs) (c, v :: vs)
+          = ((labelByte c, labelByte ch), v) :: rowEntries chs (c, vs) := by
+        simp [rowEntries]
+      rw [this, List.map_cons, List.nodup_cons]
+      refine ⟨?_, h1⟩
+      intro hm
+      exact hc.1 (mem_rowEntries_keys hm).2
+
+theorem tableEntries_keyUnique (cols : List UInt8) (rows : List (UInt8 × List Int))
+    (hc : (cols.map labelByte).Nodup) (hr : (rows.map (fun r => labelByte r.1)).Nodup) :
+    KeyUnique (tableEntries cols rows) := by
+  induction rows with
+  | nil => simp [tableEntries, KeyUnique]
+  | cons r rows ih =>
+    simp only [List.map_cons, List.nodup_cons] at hr
+    have h1 := ih hr.2
+    unfold KeyUnique at h1 ⊢
+    have : tableEntries cols (r :: rows) = rowEntries cols r ++ tableEntries cols rows := by
+      simp [tableEntries]
+    rw [this, List.map_append, List.nodup_append]
+    refine ⟨rowEntries_keyUnique cols r hc, h1, ?_⟩
+    intro a ha b hb hab
+    subst hab
+    have h2 := (mem_rowEntries_keys ha).1
+    simp only [tableEntries, List.map_flatMap, List.mem_flatMap] at hb
+    obtain ⟨r', hr', hb⟩ := hb
+    have h3 := (mem_rowEntries_keys hb).1
+    exact hr.1 (List.mem_map.2 ⟨r', hr', by rw [← h3, h2]⟩)
+
+theorem nodup_map_labelByte {l : List UInt8} (hv : ∀ b ∈ l, b ≠ 255) (hn : l.Nodup) :
+    (l.map labelByte).Nodup := by
+  rw [List.Nodup, List.pairwise_map]
+  rw [List.Nodup] at hn
+  refine List.Pairwise.imp_of_mem ?_ hn
+  intro a b ha hb hab h
+  exact hab (labelByte_inj (hv a ha) (hv b hb) h)
+
+/-! ## Membership forms -/
+
+theorem KeyUnique.nodup {m : M} (h : KeyUnique m) : m.Nodup := by
+  unfold KeyUnique at h
+  rw [List.Nodup, List.pairwise_map] at h
+  exact h.imp (fun hab heq => hab (by rw [heq]))
+
+theorem mem_goEntries {m : M} (hu : KeyUnique m) (e : Key × Int) : e ∈ goEntries m ↔ e ∈ m := by
+  obtain ⟨k, v⟩ := e
+  rw [← get_iff_mem (goEntries_sorted m).keyUnique, ← get_iff_mem hu, get_goEntries hu]
+
+/-- For a key-unique matrix the printed entries are a rearrangement of the matrix. -/
+theorem goEntries_perm {m : M} (hu : KeyUnique m) : (goEntries m).Perm m :=
+  (List.perm_ext_iff_of_nodup (goEntries_sorted m).keyUnique.nodup hu.nodup).2 (mem_goEntries hu)
+
+theorem goEntries_count {m : M} (hu : KeyUnique m) (k : Key) :
+    ((goEntries m).map (·.1)).count k = if k ∈ m.map (·.1) then 1 else 0 := by
+  have h := (goEntries_sorted m).keyUnique
+  unfold KeyUnique at h
+  rw [h.count]
+  have : k ∈ (goEntries m).map (·.1) ↔ k ∈ m.map (·.1) := by
+    have h1 := get_eq_none_iff (goEntries m) k
+    have h2 := get_eq_none_iff m k
+    rw [get_goEntries hu] at h1
+    constructor
+    · intro hk; exact Classical.byContradiction fun hn => (h1.1 (h2.2 hn)) hk
+    · intro hk; exact Classical.byContradiction fun hn => (h2.1 (h1.2 hn)) hk
+  simp only [this]
+
+/-! ## The three kinds of bad rows -/
+
+theorem badRow_wrong_count (n : Nat) (lab : Bytes) (vals : List Bytes) (h : vals.length ≠ n) :
+    BadRow n (lab :: vals) := by
+  left; simpa using h
+
+theorem badRow_long_label (n : Nat) (lab : Bytes) (vals : List Bytes) (h : lab.length ≠ 1) :
+    BadRow n (lab :: vals) :=
+  Or.inr (Or.inl ⟨lab, rfl, h⟩)
+
+theorem badRow_bad_score (n : Nat) (lab : Bytes) (vals : List Bytes) {t : Bytes} (ht : t ∈ vals)
+    (hp : parseQuarter t = none) : BadRow n (lab :: vals) :=
+  Or.inr (Or.inr ⟨t, ht, hp⟩)
+
 end Bio.Matrix
